@@ -298,6 +298,14 @@ let suite_queue t v =
                       | [] -> oracle v "emits_allocated_file" false)
                    else if not (List.for_all (fun y -> M.le_order order f y) pending) then
                      oracle v "not_least_in_order" false);
+                  (* C11: the chunks of a (version of a) file are handed out one after the other from byte 0:
+                     the slice starts where the allocation of the agreed pre-state stands, is not empty and
+                     stays inside the file *)
+                  (match iout with
+                   | Some (_, o, l, _, _) when not f.M.frec ->
+                       if not (M.Z.eqb o f.M.falloc) || not (M.Z.ltb M.Z0 l) || M.Z.ltb f.M.fsize (M.Z.add o l) then
+                         oracle v "chunk_not_contiguous_with_allocation" false
+                   | _ -> ());
                   (* predecessor *)
                   let expect_prev =
                     if M.Z.eqb order M.oNONE then []
@@ -558,6 +566,8 @@ let suite_stage t v =
           let n = name_tok () in let r = name_tok () in let pv = name_tok () in let h = name_tok () in
           let b = nz t in let e = nz t in let tm = nz t in
           { M.p_name = n; p_renamed = r; p_prev = pv; p_size = M.Z0; p_hash = h; p_beg = b; p_end = e; p_time = tm }))
+    | "VH" -> `VH
+    | "VR" -> `VR
     | "SQ" -> let n = name_tok () in let off = ni t in `SQ (n, off, [])
     | "SV" -> let n = name_tok () in let off = ni t in let h = name_tok () in `SQ (n, off, h)
     | "IM" ->
@@ -592,6 +602,7 @@ let suite_stage t v =
   let idx = ref 0 in
   (* ghost bookkeeping for the oracles (from the ops and the implementation's own answers) *)
   let announced : (string, string) Hashtbl.t = Hashtbl.create 8 in          (* name -> announced hashes *)
+  let vhold = ref false in                                                    (* the validators are held back (op VH) *)
   let aged = ref false in                                                     (* time passed / the cache was cleaned *)
   let ann_prev : (string * string, string) Hashtbl.t = Hashtbl.create 8 in  (* (name,hash) -> prev *)
   let written : (string * string, (M.z * M.z)) Hashtbl.t = Hashtbl.create 8 in (* (name,hash) -> acknowledged written ranges *)
@@ -697,7 +708,14 @@ let suite_stage t v =
              Hashtbl.add written (ns, hs) (p.M.p_beg, M.Z.add p.M.p_beg len);
              if M.Z.ltb len (M.Z.sub p.M.p_end p.M.p_beg) then short_read := true
            end;
-           st := M.settle md5_name M.sETTLE_FUEL st' now
+           (* (validators held back: the file stays in the model's validation queue) *)
+           st := if !vhold then st' else M.settle md5_name M.sETTLE_FUEL st' now
+       | `VH -> ignore (next t); st := M.settle md5_name M.sETTLE_FUEL !st now; vhold := true
+       | `VR ->
+           vhold := false;
+           let isn = parse_snap t in
+           st := M.settle md5_name M.sETTLE_FUEL !st now;
+           check_snapshot k isn (model_snap !st)
        | `ST ->
            let isn = parse_snap t in
            st := M.settle md5_name M.sETTLE_FUEL !st now;
@@ -988,6 +1006,10 @@ let suite_e2e t v =
   if fi "ineligible_touched" > 0 then oracle v "ineligible_file_sent_or_deleted" false;
   if fi "alien_final" > 0 then oracle v "delivered_mixture_of_versions" false;
   (* C07 *)
+  (* C07: the ordering / logging chain continues: a file confirmed before or after the restart has ONE
+     sent-log record (profiles without validation failures: a failed file is legitimately sent and logged again) *)
+  if f "restarted" = "true" && (profile = "crash" || profile = "crashgone") && fi "sent_logged_twice" > 0 then
+    oracle v "sent_log_record_repeated_after_restart" false;
   if f "restarted" = "true" then begin
     if fi "resent_held_bytes" > 0 then oracle v "resent_bytes_receiver_reported_held" false;
     if not (finished && all_delivered) then oracle v "not_delivered_after_sender_restart" false
@@ -1685,6 +1707,22 @@ let suite_track t v =
   v.cls <- "D";
   v.nontrivial <- List.length all >= 3
 
+(* ============================ suite HR : requests during start-up recovery (C15) === *)
+let suite_recov t v =
+  let _src = next t in
+  expect t "=";
+  let first = next t in
+  if first = "skipped" then (v.cls <- "D"; v.nontrivial <- false)
+  else begin
+    let d1 = int_of_string first in let d2 = ni t in let d3 = ni t in
+    let changed = ni t in let after = ni t in let wrong = ni t in
+    (* an authorised request of a source whose staging area is still recovering is answered 503 and has no effect *)
+    if d1 <> 503 || d2 <> 503 || d3 <> 503 || changed <> 0 then oracle v "served_while_recovering" false;
+    if after <> 200 then oracle v "not_served_after_recovery" false;
+    if wrong <> 403 then oracle v "unauthorised_not_refused_after_recovery" false;
+    v.cls <- "D"; v.nontrivial <- true
+  end
+
 (* ============================ dispatch ====================================== *)
 let run_line line =
   let t = mk line in
@@ -1707,6 +1745,7 @@ let run_line line =
       | "P" -> suite_prune t v
       | "CA" -> suite_cache t v
       | "TK" -> suite_track t v
+      | "HR" -> suite_recov t v
       | "WH" -> suite_wire_http t v
       | "LC" -> suite_log_conc t v
       | s -> raise (Malformed ("unknown suite " ^ s)))
